@@ -500,7 +500,18 @@ pub fn run_batch<C: Check>(check: &C, cfg: &BatchCfg) -> BatchOutcome {
     }
 }
 
+/// fds saved by an active process-wide capture (C14 silence layer), restored before printing
+pub static SAVED_FDS: Mutex<Option<(i32, i32)>> = Mutex::new(None);
+
 pub fn flush_and_code(lines: &[String], code: i32) -> i32 {
+    if let Ok(mut g) = SAVED_FDS.lock() {
+        if let Some((a, b)) = g.take() {
+            unsafe {
+                libc::dup2(a, 1);
+                libc::dup2(b, 2);
+            }
+        }
+    }
     let so = std::io::stdout();
     let mut so = so.lock();
     for l in lines {
